@@ -1453,7 +1453,11 @@ def _single_use_temp(fd, log=None):
                                 later |= {id(z_) for z_ in ast.walk(q_)}
                     before = [n for n in ast.walk(nxt) if isinstance(n, (ast.Call, ast.Await, ast.Yield, ast.YieldFrom, ast.NamedExpr)) and id(n) not in anc and
                               id(n) not in later and hasattr(n, 'lineno') and (n.lineno, n.col_offset) < (use.lineno, use.col_offset)]
-                    if not bad and not before:
+                    # only a temporary that is iterated (the first iterable of a comprehension): a named call result that is returned, compared or
+                    # passed on is an anchor the rules read, and stays
+                    par0 = parent.get(id(use))
+                    iterated = isinstance(par0, ast.comprehension) and par0.iter is use
+                    if not bad and not before and iterated:
                         stmts[i + 1] = _Subst({x: st.value}).visit(nxt)
                         del stmts[i]
                         if log is not None:
